@@ -184,14 +184,21 @@ impl de::Error for StoreError {
 }
 
 pub fn to_tree<T: Serialize + ?Sized>(v: &T) -> Option<Tree> {
-    v.serialize(TreeSer).ok()
+    v.serialize(TreeSer(true)).ok()
 }
 
-pub struct TreeSer;
+/// serialise as a format that reports `is_human_readable() == false` would see it
+/// (compact binary self-describing formats: CBOR, MessagePack, ...)
+pub fn to_tree_binary<T: Serialize + ?Sized>(v: &T) -> Option<Tree> {
+    v.serialize(TreeSer(false)).ok()
+}
 
-pub struct SeqSer(Vec<Tree>);
-pub struct StructSer(String, Vec<(String, Tree)>);
-pub struct MapSer(Vec<(Tree, Tree)>, Option<Tree>);
+/// the flag is what `is_human_readable()` reports
+pub struct TreeSer(pub bool);
+
+pub struct SeqSer(Vec<Tree>, bool);
+pub struct StructSer(String, Vec<(String, Tree)>, bool);
+pub struct MapSer(Vec<(Tree, Tree)>, Option<Tree>, bool);
 
 impl ser::Serializer for TreeSer {
     type Ok = Tree;
@@ -203,6 +210,10 @@ impl ser::Serializer for TreeSer {
     type SerializeMap = MapSer;
     type SerializeStruct = StructSer;
     type SerializeStructVariant = ser::Impossible<Tree, StoreError>;
+
+    fn is_human_readable(&self) -> bool {
+        self.0
+    }
 
     fn serialize_bool(self, v: bool) -> Result<Tree, StoreError> {
         Ok(Tree::Bool(v))
@@ -250,7 +261,7 @@ impl ser::Serializer for TreeSer {
         Ok(Tree::None)
     }
     fn serialize_some<T: ?Sized + Serialize>(self, value: &T) -> Result<Tree, StoreError> {
-        Ok(Tree::Some(Box::new(value.serialize(TreeSer)?)))
+        Ok(Tree::Some(Box::new(value.serialize(TreeSer(self.0))?)))
     }
     fn serialize_unit(self) -> Result<Tree, StoreError> {
         Ok(Tree::Unit)
@@ -271,7 +282,7 @@ impl ser::Serializer for TreeSer {
         name: &'static str,
         value: &T,
     ) -> Result<Tree, StoreError> {
-        Ok(Tree::Newtype(name.into(), Box::new(value.serialize(TreeSer)?)))
+        Ok(Tree::Newtype(name.into(), Box::new(value.serialize(TreeSer(self.0))?)))
     }
     fn serialize_newtype_variant<T: ?Sized + Serialize>(
         self,
@@ -283,17 +294,17 @@ impl ser::Serializer for TreeSer {
         Ok(Tree::NewtypeVariant(
             name.into(),
             variant.into(),
-            Box::new(value.serialize(TreeSer)?),
+            Box::new(value.serialize(TreeSer(self.0))?),
         ))
     }
     fn serialize_seq(self, len: Option<usize>) -> Result<SeqSer, StoreError> {
-        Ok(SeqSer(Vec::with_capacity(len.unwrap_or(0))))
+        Ok(SeqSer(Vec::with_capacity(len.unwrap_or(0)), self.0))
     }
     fn serialize_tuple(self, len: usize) -> Result<SeqSer, StoreError> {
-        Ok(SeqSer(Vec::with_capacity(len)))
+        Ok(SeqSer(Vec::with_capacity(len), self.0))
     }
     fn serialize_tuple_struct(self, _n: &'static str, len: usize) -> Result<SeqSer, StoreError> {
-        Ok(SeqSer(Vec::with_capacity(len)))
+        Ok(SeqSer(Vec::with_capacity(len), self.0))
     }
     fn serialize_tuple_variant(
         self,
@@ -305,10 +316,10 @@ impl ser::Serializer for TreeSer {
         Err(StoreError("tuple variants unsupported by SimStore".into()))
     }
     fn serialize_map(self, _len: Option<usize>) -> Result<MapSer, StoreError> {
-        Ok(MapSer(Vec::new(), None))
+        Ok(MapSer(Vec::new(), None, self.0))
     }
     fn serialize_struct(self, name: &'static str, len: usize) -> Result<StructSer, StoreError> {
-        Ok(StructSer(name.into(), Vec::with_capacity(len)))
+        Ok(StructSer(name.into(), Vec::with_capacity(len), self.0))
     }
     fn serialize_struct_variant(
         self,
@@ -325,7 +336,7 @@ impl ser::SerializeSeq for SeqSer {
     type Ok = Tree;
     type Error = StoreError;
     fn serialize_element<T: ?Sized + Serialize>(&mut self, v: &T) -> Result<(), StoreError> {
-        self.0.push(v.serialize(TreeSer)?);
+        self.0.push(v.serialize(TreeSer(self.1))?);
         Ok(())
     }
     fn end(self) -> Result<Tree, StoreError> {
@@ -336,7 +347,7 @@ impl ser::SerializeTuple for SeqSer {
     type Ok = Tree;
     type Error = StoreError;
     fn serialize_element<T: ?Sized + Serialize>(&mut self, v: &T) -> Result<(), StoreError> {
-        self.0.push(v.serialize(TreeSer)?);
+        self.0.push(v.serialize(TreeSer(self.1))?);
         Ok(())
     }
     fn end(self) -> Result<Tree, StoreError> {
@@ -347,7 +358,7 @@ impl ser::SerializeTupleStruct for SeqSer {
     type Ok = Tree;
     type Error = StoreError;
     fn serialize_field<T: ?Sized + Serialize>(&mut self, v: &T) -> Result<(), StoreError> {
-        self.0.push(v.serialize(TreeSer)?);
+        self.0.push(v.serialize(TreeSer(self.1))?);
         Ok(())
     }
     fn end(self) -> Result<Tree, StoreError> {
@@ -362,7 +373,7 @@ impl ser::SerializeStruct for StructSer {
         key: &'static str,
         v: &T,
     ) -> Result<(), StoreError> {
-        self.1.push((key.into(), v.serialize(TreeSer)?));
+        self.1.push((key.into(), v.serialize(TreeSer(self.2))?));
         Ok(())
     }
     fn end(self) -> Result<Tree, StoreError> {
@@ -373,12 +384,12 @@ impl ser::SerializeMap for MapSer {
     type Ok = Tree;
     type Error = StoreError;
     fn serialize_key<T: ?Sized + Serialize>(&mut self, k: &T) -> Result<(), StoreError> {
-        self.1 = Some(k.serialize(TreeSer)?);
+        self.1 = Some(k.serialize(TreeSer(self.2))?);
         Ok(())
     }
     fn serialize_value<T: ?Sized + Serialize>(&mut self, v: &T) -> Result<(), StoreError> {
         let k = self.1.take().ok_or_else(|| StoreError("value before key".into()))?;
-        self.0.push((k, v.serialize(TreeSer)?));
+        self.0.push((k, v.serialize(TreeSer(self.2))?));
         Ok(())
     }
     fn end(self) -> Result<Tree, StoreError> {
@@ -409,6 +420,10 @@ pub struct ReadBehaviour {
     /// deliver floats that are exactly representable as f32 through visit_f32
     #[serde(default)]
     pub f32_when_exact: bool,
+    /// the format reports `is_human_readable() == false` on both the write and the
+    /// read side (compact binary self-describing formats do)
+    #[serde(default)]
+    pub binary: bool,
     pub seed: u64,
 }
 
@@ -422,6 +437,7 @@ impl ReadBehaviour {
             owned_keys: false,
             narrow_ints: false,
             f32_when_exact: false,
+            binary: false,
             seed: 0,
         }
     }
@@ -438,6 +454,7 @@ impl ReadBehaviour {
             owned_keys: r.chance(1, 2),
             narrow_ints: r.chance(1, 4),
             f32_when_exact: r.chance(1, 4),
+            binary: r.chance(1, 3),
             seed: r.next(),
         }
     }
@@ -601,6 +618,10 @@ impl<'de> de::VariantAccess<'de> for NewtypeOnly<'de> {
 
 impl<'de> de::Deserializer<'de> for TreeDe<'de> {
     type Error = StoreError;
+
+    fn is_human_readable(&self) -> bool {
+        !self.b.binary
+    }
 
     fn deserialize_any<V: Visitor<'de>>(self, v: V) -> Result<V::Value, StoreError> {
         match self.t {
